@@ -91,10 +91,12 @@
             { AI x(g); x += ai; sameSpatial("ArticulatedInertia +=", x.toSpatialMat(), sum, 4 * M, D); x -= ai; sameSpatial("ArticulatedInertia -=", x.toSpatialMat(), Pm, 4 * M, D);
               AI y; y.setMass(Mm).setMassMoment(F).setInertia(Jj); sameSpatial("ArticulatedInertia setters", y.toSpatialMat(), Pm, M, D); }
             SVecP o = g * SVecP(w, v); V3 ra, rb; mulv6(Pm, wL, vL, ra, rb);
-            k.sameV("spatial", "ArticulatedInertia*V.angular", toV(o[0]), ra, 4 * t * M * D * vs); k.sameV("spatial", "ArticulatedInertia*V.linear", toV(o[1]), rb, 4 * t * M * vs);
+            LD ba, bb, ca, cb; absMulv6(Pm, wL, vL, ba, bb); absMulv6(Pm, vL, wL, ca, cb);     // |P||x|: scale of the rounding error
+            k.sameV("spatial", "ArticulatedInertia*V.angular", toV(o[0]), ra, t * ba); k.sameV("spatial", "ArticulatedInertia*V.linear", toV(o[1]), rb, t * bb);
             Mat<2, 2, Vec3P> two; two(0, 0) = w; two(1, 0) = v; two(0, 1) = v; two(1, 1) = w;
             Mat<2, 2, Vec3P> o2 = g * two; V3 qa, qb; mulv6(Pm, vL, wL, qa, qb);
-            k.sameV("spatial", "ArticulatedInertia*Mat<2,N>.col0", toV(o2(0, 0)), ra, 4 * t * M * D * vs); k.sameV("spatial", "ArticulatedInertia*Mat<2,N>.col1", toV(o2(1, 1)), qb, 4 * t * M * (D * rr::maxAbs(vL) + D * D * rr::maxAbs(wL) + vs));
+            k.sameV("spatial", "ArticulatedInertia*Mat<2,N>.col0", toV(o2(0, 0)), ra, t * ba); k.sameV("spatial", "ArticulatedInertia*Mat<2,N>.col0.linear", toV(o2(1, 0)), rb, t * bb);
+            k.sameV("spatial", "ArticulatedInertia*Mat<2,N>.col1", toV(o2(0, 1)), qa, t * ca); k.sameV("spatial", "ArticulatedInertia*Mat<2,N>.col1.linear", toV(o2(1, 1)), qb, t * cb);
         }
 
         // ---- MassProperties
